@@ -31,7 +31,7 @@ func init() {
 	register(&Prop{
 		ID:       "C17",
 		Category: "model_checking",
-		Rule: "(a) scenarios of 3 threads (real goroutines under a hand-off scheduler) x 3 operations each on DISTINCT instances chosen to touch the same package-level tables (fixed-Huffman and dynamic decodes, level-1 / level-2 / Huffman-only compression, 4 KiB window, gzip, zlib with dictionary, a Writer closed, Reset and reused next to Writers constructed after its Close): ALL interleavings of the operations (1680 per scenario) at every acceleration level; oracle: every instance's bytes and errors equal its solo run; " +
+		Rule: "(a) scenarios of 3 threads (real goroutines under a hand-off scheduler) x 3 operations each (4 in the thorough tier: 34650 interleavings per scenario) on DISTINCT instances chosen to touch the same package-level tables (fixed-Huffman and dynamic decodes, level-1 / level-2 / Huffman-only compression, 4 KiB window, gzip, zlib with dictionary, a Writer closed, Reset and reused next to Writers constructed after its Close): ALL interleavings of the operations (1680 per scenario) at every acceleration level; oracle: every instance's bytes and errors equal its solo run; " +
 			"(b) global-state invariant in every explored state: a snapshot over EVERY package-level variable of the six fastgo packages (registration code generated from /repo's current sources with go/parser, injected with go build -overlay) is unchanged since initialisation (the baseline is taken after one solo warm-up run of every instance, so tables built lazily on first use do not count); " +
 			"(c) complement, sampling not enumeration: the same bodies free-running under the race detector, 16 goroutines x rounds x GOMAXPROCS {1,2,16}; non-trivial = every execution (each has 9 operations on 3 instances)",
 		Assumptions: []string{"scheduling points are the API calls: fastgo has no locks, channels or atomics, so interleavings inside a call are covered only by the global-state invariant and the sampled race pass",
@@ -43,6 +43,9 @@ func init() {
 		Levels:   func(avail []int, thorough bool) []int { return avail },
 	})
 }
+
+// c17FourOps: thorough tier: four operations per thread (34650 interleavings per scenario instead of 1680).
+var c17FourOps bool
 
 type c17inst struct {
 	name   string
@@ -56,16 +59,31 @@ func c17Writer(k WK, p1, p2 []byte) *c17inst {
 	var errs []string
 	in := &c17inst{name: "W:" + k.String()}
 	note := func(err error) { errs = append(errs, nilness(err)) }
+	first := p1
+	var second []byte
+	if c17FourOps {
+		first, second = p1[:len(p1)/2], p1[len(p1)/2:]
+	}
 	in.ops = []func(){
 		func() {
 			var err error
 			w, err = k.Fast(sink)
 			note(err)
 			if err == nil {
-				_, err = w.Write(p1)
+				_, err = w.Write(first)
 				note(err)
 			}
 		},
+	}
+	if c17FourOps {
+		in.ops = append(in.ops, func() {
+			if w != nil {
+				_, err := w.Write(second)
+				note(err)
+			}
+		})
+	}
+	in.ops = append(in.ops,
 		func() {
 			if w != nil {
 				note(w.Flush())
@@ -77,8 +95,7 @@ func c17Writer(k WK, p1, p2 []byte) *c17inst {
 			if w != nil {
 				note(w.Close())
 			}
-		},
-	}
+		})
 	in.digest = func() string {
 		return fmt.Sprintf("%d:%016x:%s", len(sink.Buf), introspect.Bytes2(sink.Buf), strings.Join(errs, ","))
 	}
@@ -114,9 +131,18 @@ func c17ReusedWriter(k WK, p1, p2, p3 []byte) *c17inst {
 			if w != nil {
 				_, err := w.Write(p3)
 				note(err)
-				note(w.Close())
+				if !c17FourOps {
+					note(w.Close())
+				}
 			}
 		},
+	}
+	if c17FourOps {
+		in.ops = append(in.ops, func() {
+			if w != nil {
+				note(w.Close())
+			}
+		})
 	}
 	in.digest = func() string {
 		return fmt.Sprintf("%d:%016x:%d:%016x:%s", len(s1.Buf), introspect.Bytes2(s1.Buf), len(s2.Buf), introspect.Bytes2(s2.Buf), strings.Join(errs, ","))
@@ -147,12 +173,25 @@ func c17Reader(k RK, name string, stream []byte) *c17inst {
 		},
 		func() { read(5000) },
 		func() {
+			if c17FourOps {
+				return
+			}
 			if r != nil {
 				b, err := io.ReadAll(r)
 				out = append(out, b...)
 				errs = append(errs, errClass(err))
 			}
 		},
+	}
+	if c17FourOps {
+		in.ops[2] = func() { read(7000) }
+		in.ops = append(in.ops, func() {
+			if r != nil {
+				b, err := io.ReadAll(r)
+				out = append(out, b...)
+				errs = append(errs, errClass(err))
+			}
+		})
 	}
 	in.digest = func() string {
 		return fmt.Sprintf("%d:%016x:%s", len(out), introspect.Bytes2(out), strings.Join(errs, ","))
@@ -219,6 +258,7 @@ func snapDiff(a, b map[string]uint64) string {
 }
 
 func c17Harness(cfg *Cfg) func(x *mc.Exec) {
+	c17FourOps = cfg.Thorough
 	d := c17Data(cfg.Seed)
 	if verifsnap.Count() < 10 {
 		panic(mc.HarnessError{Msg: fmt.Sprintf("only %d package-level variables registered: overlay not effective", verifsnap.Count())})
@@ -260,7 +300,7 @@ func c17Harness(cfg *Cfg) func(x *mc.Exec) {
 		next := make([]int, len(insts))
 		sched := ""
 		x.NonTrivial()
-		for step := 0; step < 9; step++ {
+		for step := 0; step < 16; step++ {
 			var enabled []int
 			for i := range insts {
 				if next[i] < len(insts[i].ops) {
